@@ -290,30 +290,50 @@ DV_USER = ['d0', 'd1', 'd2', 'd3']
 
 
 def gen_derivers(rng):
-    k = rng.choice([0, 1, 2, 3, 4])
+    """add_view_deriver calls: user derivers and RE-ADDED stock derivers (any of them, incl. mapped_view), hints as a bare
+    name, as the bare sentinels INGRESS / VIEW, or as iterables of alternatives that may contain a sentinel, an absent
+    name, forward references to derivers registered later"""
+    k = rng.choice([0, 1, 2, 3, 4, 5])
     pool = DV_USER + DV_DEFAULT + ['INGRESS', 'VIEW', 'absent_deriver']
+    stock = {d[0]: (d[1], d[2]) for d in _vals()['dv_default_decls']}
     adds = []
+
+    def listify(h):
+        """the same constraint in another input form"""
+        q = rng.random()
+        if h is None or isinstance(h, list) or q < 0.45:
+            return h
+        if q < 0.75:
+            return [h]
+        return [h, rng.choice(['absent_deriver'] + DV_USER)] if q < 0.9 else [rng.choice(DV_USER), h]
+
     for _ in range(k):
         r = rng.random()
-        name = rng.choice(DV_USER) if r < 0.9 else (rng.choice(['csrf_view', 'http_cached_view']) if r < 0.97
-                                                    else rng.choice(['INGRESS', 'VIEW']))
+        name = rng.choice(DV_USER) if r < 0.78 else (rng.choice(DV_DEFAULT) if r < 0.96 else rng.choice(['INGRESS', 'VIEW']))
 
         def hint(after):
             r = rng.random()
-            if r < 0.5:
+            if r < 0.45:
                 return None
+
             def c():
                 q = rng.random()
-                if q < 0.05:
+                if q < 0.04:
                     return rng.choice(['VIEW', 'mapped_view']) if after else 'INGRESS'     # refused by add_view_deriver
-                if q < 0.42:
+                if q < 0.18:
+                    return 'INGRESS' if after else 'VIEW'                                  # the sentinels
+                if q < 0.5:
                     return rng.choice(DV_USER)
                 return (rng.choice(DV_DEFAULT[:4] if after else DV_DEFAULT[3:]) if rng.random() < 0.75
                         else rng.choice(pool))
-            if r < 0.8:
-                return c()
+            if r < 0.75:
+                return listify(c())
             return [c() for _ in range(rng.choice([1, 2, 3]))]
-        adds.append([name, hint(True), hint(False)])
+        if name in stock and rng.random() < 0.6:
+            u, o = stock[name]                     # replace a stock deriver with its stock hints, in some input form
+            adds.append([name, listify(u), listify(o)])
+        else:
+            adds.append([name, hint(True), hint(False)])
     return {'k': 'derivers', 'adds': adds}
 
 
@@ -394,7 +414,7 @@ def valid(case):
             return bool(case['adds'])
         if k == 'derivers':
             for a in case['adds']:
-                if len(a) != 3 or a[0] not in DV_USER + ['csrf_view', 'http_cached_view', 'INGRESS', 'VIEW'] \
+                if len(a) != 3 or a[0] not in DV_USER + DV_DEFAULT + ['INGRESS', 'VIEW'] \
                         or not (_hint_ok(a[1]) and _hint_ok(a[2])):
                     return False
             return True
